@@ -209,8 +209,12 @@ impl BlockBuilder {
     }
 
     fn should_restart(&self) -> bool {
-        self.options.bytes_restart_interval <= self.bytes_since_restart
-            || self.options.key_value_pairs_restart_interval <= self.key_value_pairs_since_restart
+        // The pair that opens an interval is that interval's restart point, so an interval always
+        // holds at least one pair (a restart interval of 0 behaves like 1).
+        self.key_value_pairs_since_restart > 0
+            && (self.options.bytes_restart_interval <= self.bytes_since_restart
+                || self.options.key_value_pairs_restart_interval
+                    <= self.key_value_pairs_since_restart)
     }
 
     fn compute_key_frag<'a>(&mut self, key: &'a [u8]) -> (usize, &'a [u8]) {
